@@ -80,7 +80,15 @@ func runInternal(f []string) string {
 		if !ok || e1 != nil || e2 != nil || e3 != nil {
 			return bad
 		}
-		return showOut(otp.VerifDeriveRFC4226(k, c, int(d), otp.Algorithm(a)))
+		code, err := otp.VerifDeriveRFC4226(k, c, int(d), otp.Algorithm(a))
+		extra := ""
+		if wasmVariantCheck != nil {
+			extra = wasmVariantCheck(k, c, int(d), otp.Algorithm(a), code, err)
+		}
+		return showOut(code, err) + extra
 	}
 	return bad
 }
+
+// set by the js/wasm build only (wasmvariant_js.go)
+var wasmVariantCheck func(k []byte, c uint64, d int, a otp.Algorithm, native string, nativeErr error) string
